@@ -7,12 +7,40 @@ selector instead of jumping the clock.
 """
 import asyncio
 import heapq
+import os
 import selectors
+import signal
 import threading
+import time as _time
 
 
 class Stall(RuntimeError):
     pass
+
+
+class Spin(BaseException):
+    """one callback of the loop (a task step) ran for `spin_limit` wall-clock seconds without returning to the event
+    loop: the code under test is in a busy loop that never suspends (awaits that complete immediately, forever).
+    A BaseException, so that no `except Exception` of the code under test swallows it."""
+
+
+SPIN_LIMIT = float(os.environ.get("VLOOP_SPIN_LIMIT", "20"))
+
+
+_spins = 0  # busy loops seen in this process so far
+
+
+def spin_limit_now():
+    """the first busy loop of a process is given SPIN_LIMIT seconds (no false alarm on a loaded machine); once one has
+    been seen, further ones are cut after 0.5 s (a spinning task leaks timer handles: the loop never gets to purge them)"""
+    return SPIN_LIMIT if _spins == 0 else min(SPIN_LIMIT, 0.5)
+
+
+def _on_alarm(signum, frame):
+    global _spins
+    lim = spin_limit_now()
+    _spins += 1
+    raise Spin(f"no return to the event loop for {lim} s of wall-clock time (busy loop)")
 
 
 class VLoop(asyncio.SelectorEventLoop):
@@ -22,6 +50,31 @@ class VLoop(asyncio.SelectorEventLoop):
         self._ext = 0
         self._ext_lock = threading.Lock()
         self.horizon = None  # optional virtual-time horizon; exceeding it raises Stall
+        # livelock watchdog (opt-in): wall-clock seconds the loop may keep iterating at one virtual instant (tasks that
+        # keep yielding to the loop without ever waiting for a timer or I/O); None = off (a whole scan against an
+        # in-process ECU legitimately runs at one virtual instant)
+        self.livelock_limit = None
+        self._vt_wall = _time.monotonic()
+        # busy-loop watchdog: re-armed on every iteration, fires when a single iteration takes SPIN_LIMIT wall seconds
+        self._spin = False
+        if SPIN_LIMIT > 0 and threading.current_thread() is threading.main_thread():
+            try:
+                signal.signal(signal.SIGALRM, _on_alarm)
+                self._spin = True
+            except (ValueError, OSError):
+                self._spin = False
+
+    def close(self):
+        if self._spin:
+            signal.setitimer(signal.ITIMER_REAL, 0)
+        super().close()
+
+    def run_until_complete(self, future):
+        try:
+            return super().run_until_complete(future)
+        finally:
+            if self._spin:  # the watchdog is armed only while the loop runs
+                signal.setitimer(signal.ITIMER_REAL, 0)
 
     def time(self):
         return self._vt
@@ -42,6 +95,17 @@ class VLoop(asyncio.SelectorEventLoop):
         return fut
 
     def _run_once(self):
+        if self._spin:
+            # repeating: an exception raised by the handler inside a weakref callback / __del__ / the garbage collector
+            # is swallowed by the interpreter ("Exception ignored in ..."); the next tick raises it again
+            signal.setitimer(signal.ITIMER_REAL, spin_limit_now(), 0.2)
+        if self.livelock_limit is not None:
+            if self._ext > 0:
+                self._vt_wall = _time.monotonic()
+            elif _time.monotonic() - self._vt_wall > min(self.livelock_limit, spin_limit_now()):
+                global _spins
+                _spins += 1
+                raise Spin(f"the loop keeps iterating at virtual time {self._vt} without ever waiting (livelock)")
         while self._scheduled and self._scheduled[0]._cancelled:
             h = heapq.heappop(self._scheduled)
             h._scheduled = False
@@ -59,6 +123,7 @@ class VLoop(asyncio.SelectorEventLoop):
                     if self.horizon is not None and when > self.horizon:
                         raise Stall(f"virtual-time horizon {self.horizon} exceeded")
                     self._vt = when
+                    self._vt_wall = _time.monotonic()
             else:
                 # is there really nothing? give the selector one non-blocking look (self-pipe wakeups)
                 event_list = self._selector.select(0)
@@ -68,10 +133,11 @@ class VLoop(asyncio.SelectorEventLoop):
         super()._run_once()
 
 
-def vrun(coro, horizon=None):
+def vrun(coro, horizon=None, livelock=None):
     """run `coro` to completion under virtual time; returns (result, virtual_seconds)"""
     loop = VLoop()
     loop.horizon = horizon
+    loop.livelock_limit = livelock
     try:
         asyncio.set_event_loop(loop)
         res = loop.run_until_complete(coro)
